@@ -165,107 +165,126 @@ def run_ops(rep, tier):
                 rep.violation(f"autograd.differential_operators.{nm}:{cl}", f"path{i}",
                               f"vspace(ans) with {mv}: {'raised ' + type(exc).__name__ if exc else 'returned ' + repr(res)}",
                               replay=dict(module="contracts.diffops", obligation=f"{nm}:{cl}", model=mv), witness=True, solver_output=str(m))
+    def _guard(title, thunk):
+        try:
+            thunk()
+        except Exception as e:  # the operator body (code under contract) failed on the contract stubs: an undischarged obligation, not a checker crash
+            out(f"autograd.differential_operators:{title.replace(':', ' ')}:OP-executes", False, f"operator body raised {type(e).__name__}: {str(e)[:100]} on contract stubs")
     # ---- deriv
-    body = _unary(D.deriv)
-    jl = []
+    def _blk_deriv():
+        body = _unary(D.deriv)
+        jl = []
 
-    def mkj(fun, x):
-        def jvp(v):
-            jl.append(v)
-            return Opaque(("primal",)), Opaque(("jvp", v.term))
-        return jvp
-    r = rebind(body, _make_jvp=mkj)(object(), Opaque(("x",)))
-    out("autograd.differential_operators.deriv:ground:OP-deriv", isinstance(r, Opaque) and r.term == ("jvp", ("ones", ("x",))), f"deriv = jvp(ones of x)[1]; got {getattr(r, 'term', r)}")
+        def mkj(fun, x):
+            def jvp(v):
+                jl.append(v)
+                return Opaque(("primal",)), Opaque(("jvp", getattr(v, "term", repr(v))))
+            return jvp
+        r = rebind(body, _make_jvp=mkj)(object(), Opaque(("x",)))
+        out("autograd.differential_operators.deriv:ground:OP-deriv", isinstance(r, Opaque) and r.term == ("jvp", ("ones", ("x",))), f"deriv = jvp(ones of x)[1]; got {getattr(r, 'term', r)}")
+
+    _guard("deriv", _blk_deriv)
     # ---- jacobian
-    body = _unary(D.jacobian)
-    for oshape, ishape in itertools.product([(), (2,), (3, 1), (0,)], [(), (2,), (1, 2)]):
-        nb = 1
-        for d in oshape:
-            nb *= d
-        ans = Opaque(("ans",), shape=oshape, nbasis=nb)
-        x = Opaque(("x",), shape=ishape)
+    def _blk_jacobian():
+        body = _unary(D.jacobian)
+        for oshape, ishape in itertools.product([(), (1,), (1, 1), (2,), (3, 1), (0,)], [(), (2,), (1, 2)]):
+            nb = 1
+            for d in oshape:
+                nb *= d
+            ans = Opaque(("ans",), shape=oshape, nbasis=nb, size=nb, iscomplex=False)
+            x = Opaque(("x",), shape=ishape)
+            rec = {}
+
+            class NP:
+                @staticmethod
+                def stack(gs):
+                    rec["stack"] = [g.term for g in gs]
+                    return Opaque(("stack", tuple(rec["stack"])))
+
+                @staticmethod
+                def reshape(a, shape):
+                    rec["reshape"] = (a.term, shape)
+                    return Opaque(("reshape", a.term, tuple(shape)))
+
+            def mk(fun, x_):
+                return (lambda g: Opaque(("vjp", g.term))), ans
+            res = rebind(body, _make_vjp=mk, np=NP)(object(), x)
+            exp = ("reshape", ("stack", tuple(("vjp", ("e", ("ans",), k)) for k in range(nb))), tuple(oshape) + tuple(ishape))
+            out(f"autograd.differential_operators.jacobian:o{oshape}i{ishape}:OP-jacobian".replace(" ", ""), getattr(res, "term", None) == exp,
+                f"jacobian = reshape(stack(vjp(e_o) in basis order), out+in); got {getattr(res, 'term', res)}")
+
+    _guard("jacobian", _blk_jacobian)
+    # ---- make_hvp / make_jvp_reversemode / grad_and_aux
+    def _blk_make_hvp___make_jvp_reversemod():
+        body = _unary(D.make_hvp)
         rec = {}
 
-        class NP:
-            @staticmethod
-            def stack(gs):
-                rec["stack"] = [g.term for g in gs]
-                return Opaque(("stack", tuple(rec["stack"])))
-
-            @staticmethod
-            def reshape(a, shape):
-                rec["reshape"] = (a.term, shape)
-                return Opaque(("reshape", a.term, tuple(shape)))
+        def gradstub(fun, *a):
+            rec["grad_of"] = fun
+            return "GRADFUN"
 
         def mk(fun, x_):
-            return (lambda g: Opaque(("vjp", g.term))), ans
-        res = rebind(body, _make_vjp=mk, np=NP)(object(), x)
-        exp = ("reshape", ("stack", tuple(("vjp", ("e", ("ans",), k)) for k in range(nb))), tuple(oshape) + tuple(ishape))
-        out(f"autograd.differential_operators.jacobian:o{oshape}i{ishape}:OP-jacobian".replace(" ", ""), getattr(res, "term", None) == exp,
-            f"jacobian = reshape(stack(vjp(e_o) in basis order), out+in); got {getattr(res, 'term', res)}")
-    # ---- make_hvp / make_jvp_reversemode / grad_and_aux
-    body = _unary(D.make_hvp)
-    rec = {}
+            rec["mk"] = (fun, x_)
+            return "VJP", "VAL"
+        fun, x = object(), Opaque(("x",))
+        r = rebind(body, _make_vjp=mk, grad=gradstub)(fun, x)
+        out("autograd.differential_operators.make_hvp:ground:OP-hvp", r == ("VJP", "VAL") and rec.get("grad_of") is fun and rec["mk"] == ("GRADFUN", x), "make_hvp = make_vjp(grad(fun), x)")
+        body = _unary(D.make_jvp_reversemode)
+        calls = []
 
-    def gradstub(fun, *a):
-        rec["grad_of"] = fun
-        return "GRADFUN"
+        def mk2(f, x_):
+            calls.append((f, x_))
+            if len(calls) == 1:
+                return "VJP1", Opaque(("y",))
+            return "VJPVJP", None
+        r = rebind(body, _make_vjp=mk2)(fun, x)
+        ok = (r == "VJPVJP" and calls[0] == (fun, x) and calls[1][0] == "VJP1" and isinstance(calls[1][1], Opaque) and calls[1][1].term == ("zeros", ("y",)))
+        out("autograd.differential_operators.make_jvp_reversemode:ground:OP-double-vjp", ok, "vjp of the vjp at zeros of the output space")
+        body = _unary(D.grad_and_aux)
+        ans, aux = Opaque(("ans",)), Opaque(("aux",))
+        rec = {}
 
-    def mk(fun, x_):
-        rec["mk"] = (fun, x_)
-        return "VJP", "VAL"
-    fun, x = object(), Opaque(("x",))
-    r = rebind(body, _make_vjp=mk, grad=gradstub)(fun, x)
-    out("autograd.differential_operators.make_hvp:ground:OP-hvp", r == ("VJP", "VAL") and rec.get("grad_of") is fun and rec["mk"] == ("GRADFUN", x), "make_hvp = make_vjp(grad(fun), x)")
-    body = _unary(D.make_jvp_reversemode)
-    calls = []
+        def mk3(f, x_):
+            rec["f"] = f
+            return (lambda g: ("VJP", tuple(getattr(t, "term", t) for t in g))), (ans, aux)
+        r = rebind(body, _make_vjp=mk3, atuple=lambda t: ("atuple", t))(lambda x_: ("pair", x_), x)
+        ok = r[1] is aux and r[0] == ("VJP", (("ones", ("ans",)), ("zeros", ("aux",)))) and rec["f"]("q") == ("atuple", ("pair", "q"))
+        out("autograd.differential_operators.grad_and_aux:ground:OP-aux-untouched", ok, "gradient seeded with (ones(ans), zeros(aux)); aux returned untouched")
 
-    def mk2(f, x_):
-        calls.append((f, x_))
-        if len(calls) == 1:
-            return "VJP1", Opaque(("y",))
-        return "VJPVJP", None
-    r = rebind(body, _make_vjp=mk2)(fun, x)
-    ok = (r == "VJPVJP" and calls[0] == (fun, x) and calls[1][0] == "VJP1" and isinstance(calls[1][1], Opaque) and calls[1][1].term == ("zeros", ("y",)))
-    out("autograd.differential_operators.make_jvp_reversemode:ground:OP-double-vjp", ok, "vjp of the vjp at zeros of the output space")
-    body = _unary(D.grad_and_aux)
-    ans, aux = Opaque(("ans",)), Opaque(("aux",))
-    rec = {}
-
-    def mk3(f, x_):
-        rec["f"] = f
-        return (lambda g: ("VJP", tuple(getattr(t, "term", t) for t in g))), (ans, aux)
-    r = rebind(body, _make_vjp=mk3, atuple=lambda t: ("atuple", t))(lambda x_: ("pair", x_), x)
-    ok = r[1] is aux and r[0] == ("VJP", (("ones", ("ans",)), ("zeros", ("aux",)))) and rec["f"]("q") == ("atuple", ("pair", "q"))
-    out("autograd.differential_operators.grad_and_aux:ground:OP-aux-untouched", ok, "gradient seeded with (ones(ans), zeros(aux)); aux returned untouched")
+    _guard("make_hvp / make_jvp_reversemode / grad_a", _blk_make_hvp___make_jvp_reversemod)
     # ---- checkpoint: primitive(fun) + defvjp_argnum whose rule re-runs make_vjp(fun, argnum) on the ORIGINAL args/kwargs
-    import autograd.core as C
-    rec = {}
+    def _blk_checkpoint__primitive_fun____d():
+        import autograd.core as C
+        rec = {}
 
-    def primitive(f):
-        w = lambda *a, **k: f(*a, **k)
-        w.wrapped_fun = f
-        return w
+        def primitive(f):
+            w = lambda *a, **k: f(*a, **k)
+            w.wrapped_fun = f
+            return w
 
-    def defvjp_argnum(p, maker):
-        rec["prim"], rec["maker"] = p, maker
+        def defvjp_argnum(p, maker):
+            rec["prim"], rec["maker"] = p, maker
 
-    def make_vjp(f, argnum):
-        rec.setdefault("mv", []).append((f, argnum))
-        return lambda *a, **k: (("VJPFUN", argnum, a, k), "VAL")
-    f = lambda *a, **k: "F"
-    w = rebind(D.checkpoint, primitive=primitive, defvjp_argnum=defvjp_argnum, make_vjp=make_vjp)(f)
-    okc = rec.get("prim") is w and getattr(w, "wrapped_fun", None) is f
-    for argnum in range(3):
-        from vlib.stubs import obox
-        OBox = obox()
-        # arguments that are still boxes of ENCLOSING traces must reach make_vjp as they are (higher-order derivatives)
-        args, kwargs = (OBox(Opaque(("a", 0)), 0, object()), Opaque(("a", 1)), OBox(Opaque(("a", 2)), 1, object())), {"k": OBox(Opaque(("k",)), 0, object())}
-        got = rec["maker"](argnum, Opaque(("ans",)), args, kwargs)
-        okc = (okc and isinstance(got, tuple) and got[:2] == ("VJPFUN", argnum) and len(got[2]) == 3 and all(p is q for p, q in zip(got[2], args))
-               and set(got[3]) == {"k"} and got[3]["k"] is kwargs["k"] and rec["mv"][-1] == (f, argnum))
-    out("autograd.differential_operators.checkpoint:ground:OP-checkpoint", okc,
-        "checkpoint(fun) = primitive(fun) with rule(argnum, ans, args, kwargs) = make_vjp(fun, argnum)(*args, **kwargs)[0] (traced args, so every order)")
+        def make_vjp(f, argnum):
+            rec.setdefault("mv", []).append((f, argnum))
+            return lambda *a, **k: (("VJPFUN", argnum, a, k), "VAL")
+        f = lambda *a, **k: "F"
+        w = rebind(D.checkpoint, primitive=primitive, defvjp_argnum=defvjp_argnum, make_vjp=make_vjp)(f)
+        okc = rec.get("prim") is w and getattr(w, "wrapped_fun", None) is f
+        for argnum in range(3):
+            from vlib.stubs import obox
+            OBox = obox()
+            # arguments that are still boxes of ENCLOSING traces must reach make_vjp as they are (higher-order derivatives)
+            args, kwargs = (OBox(Opaque(("a", 0)), 0, object()), Opaque(("a", 1)), OBox(Opaque(("a", 2)), 1, object())), {"k": OBox(Opaque(("k",)), 0, object())}
+            got = rec["maker"](argnum, Opaque(("ans",)), args, kwargs)
+            okc = (okc and isinstance(got, tuple) and got[:2] == ("VJPFUN", argnum) and len(got[2]) == 3 and all(p is q for p, q in zip(got[2], args))
+                   and set(got[3]) == {"k"} and got[3]["k"] is kwargs["k"] and rec["mv"][-1] == (f, argnum))
+        out("autograd.differential_operators.checkpoint:ground:OP-checkpoint", okc,
+            "checkpoint(fun) = primitive(fun) with rule(argnum, ans, args, kwargs) = make_vjp(fun, argnum)(*args, **kwargs)[0] (traced args, so every order)")
+
+
+
+    _guard("checkpoint: primitive(fun) + defvjp_argn", _blk_checkpoint__primitive_fun____d)
 
 
 def replay(spec):
